@@ -54,6 +54,7 @@ def hyb_obj(c, efi=False, mac=False, geom=None, **over):
 class CalcCC(Base):
     """C12/cc: 0 <= pad < cyl, size+pad is a whole number of cylinders, cc = min(that number, 1024)"""
     target = IH + '._calc_cc'
+    merge_ifs = False  # non-linear VC: two small paths are easier for the solver than one ite term
 
     def setup(self, c):
         a = c.a
